@@ -1,25 +1,33 @@
 --------------------------- MODULE ConnCodeTrace ---------------------------
 (* C06 judge (property level): one connection code per trace.  Alphabet:                      *)
-(*   Code   [target, addr, pre]        what the code fixed when it was generated (target      *)
-(*                                     client id, target address) and the ids of mappings     *)
+(*   Code   [target, addr, host, port, proto, pre]                                            *)
+(*                                     what the code fixed when it was generated (target      *)
+(*                                     client id, target address; host / port / proto = the   *)
+(*                                     driver's own reading of that address: where a mapping  *)
+(*                                     for it forwards to) and the ids of mappings            *)
 (*                                     that existed before (not created from this code)       *)
 (*   Call   [p, op, client, node]      op = "Act" (ActivateConnectionCode by listen client    *)
 (*                                     `client`) | "Rev" (RevokeConnectionCode); node = the    *)
 (*                                     server node (own hybrid.Storage) the call goes through  *)
-(*   Ret    [p, op, ok, id, listen, tclient, taddr]   the call returned; for a successful     *)
+(*   Ret    [p, op, ok, id, listen, tclient, taddr, thost, tport, proto]                      *)
+(*                                     the call returned; for a successful                    *)
 (*                                     activation the fields of the mapping it returned       *)
 (*   Expire []                         the activation TTL has elapsed (logged only once the   *)
 (*                                     wall clock is past the deadline and the keys are gone) *)
 (*   Tick   []                         time passed, less than the code's remaining lifetime    *)
 (*   Fault  [at]                       a storage write was made to fail (at = step label)     *)
 (*   Final  [maps, code]               quiescent store: every port-mapping record             *)
-(*                                     [id, listen, tclient, taddr] and the code record       *)
+(*                                     [id, listen, tclient, taddr, thost, tport, proto] and  *)
+(*                                     the code record                                        *)
 (* Line order is the real-time order in which the driver observed the events (Call logged     *)
 (* before the call starts, Ret after it returned), so "x returned before y was called" in     *)
 (* the file implies the same in reality.                                                      *)
 (*                                                                                            *)
 (* Clauses (exactly the statement of C06):                                                    *)
-(*   DoubleActivation     a second activation of the code succeeded; detail "xnode:..." when  *)
+(*   DoubleActivation     a second activation of the code succeeded (a success that hands the *)
+(*                        SAME mapping back to the SAME listen client again - an idempotent   *)
+(*                        answer to a repeated submit - is not a second turn of the code into *)
+(*                        a mapping and is accepted); detail "xnode:..." when                 *)
 (*                        the two successful calls went through different nodes,              *)
 (*                        "sameclient:..." when both were submitted by the same listen client *)
 (*   ActivatedInvalid     an activation succeeded although the code was expired / revoked     *)
@@ -32,10 +40,12 @@
 (*                        returned (a failed activation left it behind); detail = the         *)
 (*                        environment events of the trace (expiry / which write failed)       *)
 (*   WrongFields          a returned or stored mapping does not target the client and         *)
-(*                        address fixed by the code, or does not listen for its activator     *)
+(*                        address fixed by the code (the address string, or the host / port / *)
+(*                        protocol the mapping actually forwards to), or does not listen for  *)
+(*                        its activator                                                       *)
 EXTENDS VLib
 
-VARIABLES code,     \* [target, addr, pre]
+VARIABLES code,     \* [target, addr, host, port, proto, pre]
           calls,    \* p -> [line, client, node]   (latest call of p)
           succ,     \* successful activations: set of [p, id, call, ret, client, node]
           revRet,   \* line at which the first successful revoke returned (0 = none)
@@ -43,13 +53,13 @@ VARIABLES code,     \* [target, addr, pre]
           faults    \* labels of injected write failures, in order
 vars == <<l, viol, code, calls, succ, revRet, expLine, faults>>
 
-Code0 == [target |-> 0, addr |-> "", pre |-> {}]
+Code0 == [target |-> 0, addr |-> "", host |-> "", port |-> 0, proto |-> "", pre |-> {}]
 Init == l = 1 /\ viol = {} /\ code = Code0 /\ calls = <<>> /\ succ = {} /\ revRet = 0 /\ expLine = 0 /\ faults = <<>>
 
 Elems(s) == {s[i] : i \in 1..Len(s)}
 
 TrCode == /\ Is("Code")
-          /\ code' = [target |-> Ev.target, addr |-> Ev.addr, pre |-> Elems(Ev.pre)]
+          /\ code' = [target |-> Ev.target, addr |-> Ev.addr, host |-> Ev.host, port |-> Ev.port, proto |-> Ev.proto, pre |-> Elems(Ev.pre)]
           /\ l' = l + 1 /\ UNCHANGED <<viol, calls, succ, revRet, expLine, faults>>
 
 TrCall == /\ Is("Call")
@@ -57,7 +67,7 @@ TrCall == /\ Is("Call")
           /\ l' = l + 1 /\ UNCHANGED <<viol, code, succ, revRet, expLine, faults>>
 
 ActViol(e, c) ==
-     (IF succ # {} THEN {V("DoubleActivation", (IF \E s \in succ : s.node # c.node THEN "xnode:" ELSE "")
+     (IF succ # {} /\ ~(\E s \in succ : s.id = e.id /\ s.client = c.client) THEN {V("DoubleActivation", (IF \E s \in succ : s.node # c.node THEN "xnode:" ELSE "")
                                                \o (IF \E s \in succ : s.client = c.client THEN "sameclient:" ELSE "")
                                                \o (IF \E s \in succ : s.ret < c.line THEN "sequential" ELSE "concurrent"))} ELSE {})
   \cup (IF expLine # 0 /\ expLine < c.line THEN {V("ActivatedInvalid", "expired")} ELSE {})
@@ -65,6 +75,9 @@ ActViol(e, c) ==
   \cup (IF e.listen # c.client THEN {V("WrongFields", "returned:listen")} ELSE {})
   \cup (IF e.tclient # code.target THEN {V("WrongFields", "returned:targetClient")} ELSE {})
   \cup (IF e.taddr # code.addr THEN {V("WrongFields", "returned:targetAddress")} ELSE {})
+  \cup (IF e.thost # code.host THEN {V("WrongFields", "returned:targetHost")} ELSE {})
+  \cup (IF e.tport # code.port THEN {V("WrongFields", "returned:targetPort")} ELSE {})
+  \cup (IF e.proto # code.proto THEN {V("WrongFields", "returned:protocol")} ELSE {})
 
 TrRet == /\ Is("Ret")
          /\ IF Ev.op = "Act" /\ Ev.ok
@@ -101,6 +114,9 @@ FinalViol(e) ==
   \cup (IF \E m \in owned : m.listen # owner(m).client THEN {V("WrongFields", "stored:listen")} ELSE {})
   \cup (IF \E m \in ms : m.tclient # code.target THEN {V("WrongFields", "stored:targetClient")} ELSE {})
   \cup (IF \E m \in ms : m.taddr # code.addr THEN {V("WrongFields", "stored:targetAddress")} ELSE {})
+  \cup (IF \E m \in ms : m.thost # code.host THEN {V("WrongFields", "stored:targetHost")} ELSE {})
+  \cup (IF \E m \in ms : m.tport # code.port THEN {V("WrongFields", "stored:targetPort")} ELSE {})
+  \cup (IF \E m \in ms : m.proto # code.proto THEN {V("WrongFields", "stored:protocol")} ELSE {})
 
 TrFinal == /\ Is("Final")
            /\ viol' = viol \cup FinalViol(Ev)
